@@ -336,6 +336,7 @@ class EnforcerPool:
     def enforce(self, value: Any):
         """Enforce rules from all enforcers in the pool."""
 
+        self._errors = []
         for enforcer in self.enforcers:
             self._capture_error(enforcer, value)
 
